@@ -73,10 +73,18 @@ func condWorld(r *R) {
 		return n
 	}
 
+	// locked-cancel runs: nobody ever signals (so no waiter can have been woken); a holder takes the
+	// lock while waiters are parked, expires their contexts and keeps the lock until nothing else can
+	// run: every parked Wait must have come back with its context's error without needing the lock.
+	lockedCancel := r.Choose(6, "locked-cancel") == 5
 	var cancellable []*Ctx
 	for i := 0; i < k; i++ {
 		w := &condWaiter{id: i}
-		switch r.Choose(5, "wctx") {
+		wctx := r.Choose(5, "wctx")
+		if lockedCancel {
+			wctx = 3
+		}
+		switch wctx {
 		case 3:
 			w.ctx = NewCtx(root, fmt.Sprintf("w%d", i))
 			cancellable = append(cancellable, w.ctx)
@@ -97,6 +105,9 @@ func condWorld(r *R) {
 	sigPlans := make([][]sigOp, nsig)
 	for s := range sigPlans {
 		n := r.Choose(4, "nsignals")
+		if lockedCancel {
+			n = 0
+		}
 		for j := 0; j < n; j++ {
 			sigPlans[s] = append(sigPlans[s], sigOp{broadcast: r.Choose(5, "bcast") == 4, hold: r.Choose(3, "hold") == 2, spin: r.Choose(6, "sigspin")})
 		}
@@ -189,7 +200,25 @@ func condWorld(r *R) {
 			}
 		})
 	}
-	if len(cancellable) > 0 {
+	if lockedCancel {
+		r.Probe("cancel-while-lock-held-by-another")
+		sim.GoNamed("holder", func() {
+			Spin(r.Choose(12, "holder-spin"), "holder-pace")
+			ol.Lock()
+			for _, c := range cancellable {
+				r.Fault("ctx_cancel_midcall")
+				c.Cancel()
+			}
+			sim.WaitIdle("holder-holds-lock")
+			for _, w := range waiters {
+				if w.call != nil && !w.call.Returned {
+					r.Violate("C16", "cancel-not-prompt/lock-held-by-another", "waiter%d's context expired while another goroutine holds the lock and nothing was ever signalled, but Wait has not returned: %v (%v)", w.id, w.call, sim.TaskStates())
+					break
+				}
+			}
+			ol.Unlock()
+		})
+	} else if len(cancellable) > 0 {
 		sim.GoNamed("canceller", func() {
 			for _, c := range cancellable {
 				Spin(r.Choose(10, "cancel-spin"), "canceller-pace")
